@@ -70,6 +70,46 @@ func freshMapS(v ssa.Value, depth int, seen map[ssa.Value]bool) bool {
 		case *ssa.FieldAddr:
 			root, ok := a.X.(*ssa.Alloc)
 			if !ok {
+				// field of a struct returned by a constructor-like callee: every returned value must be
+				// allocated there with a fresh dict in that field
+				base := a.X
+				if ld, isLd := base.(*ssa.UnOp); isLd {
+					if cell, isCell := ld.X.(*ssa.Alloc); isCell {
+						if sv := ir.SingleStore(cell, ld); sv != nil {
+							base = sv
+						}
+					}
+				}
+				if call, isCall := base.(*ssa.Call); isCall && depth < 3 {
+					if f := call.Call.StaticCallee(); f != nil && f.Blocks != nil {
+						fname := ""
+						if st, ok := derefT(a.X.Type()).Underlying().(*types.Struct); ok {
+							fname = st.Field(a.Field).Name()
+						}
+						n := 0
+						for _, in := range ir.Instrs(f) {
+							r, ok := in.(*ssa.Return)
+							if !ok || len(r.Results) != 1 {
+								continue
+							}
+							al, ok := r.Results[0].(*ssa.Alloc)
+							if !ok {
+								return false
+							}
+							vals := ir.LiteralFields(al)[fname]
+							if len(vals) == 0 {
+								return false
+							}
+							for _, v := range vals {
+								if !freshMap(v, depth+2) {
+									return false
+								}
+							}
+							n++
+						}
+						return n > 0
+					}
+				}
 				return false
 			}
 			name := ""
@@ -129,95 +169,8 @@ func derefT(t types.Type) types.Type {
 }
 
 func runC12(c *Ctx) {
-	// R1: freshness of every dict written in the router
 	const r1 = "C12.R1 message dicts are written only while private to the activation"
-	exempt := map[string]string{
-		"router.(*realm).modifySessionDetails|%sess.Details":  "the session's own details, written under the session lock by the modify_details meta procedure (by design)",
-		"router.(*router).AttachClient|call:wamp.RecvTimeout(%client, 5000000000)#0.(*wamp.Hello),ok#0.Details": "HELLO details of this handshake, replaced by a NormalizeDict copy before the write",
-		"router.(*realm).authClient|call:invoke:auth.Authenticator.Authenticate": "WELCOME details returned by the authenticator for this handshake only",
-		"router.(*realm).killAllSessions|call:router.makeGoodbye(":              "GOODBYE built by makeGoodbye for this call (fresh dict), shared read-only by the killed sessions",
-	}
-	paramWriters := map[string]int{} // function -> parameter index whose dict it writes
-	type site struct {
-		fn   *ssa.Function
-		in   ssa.Instruction
-		m    ssa.Value
-		desc string
-	}
-	var sites []site
-	for _, fn := range c.P.FuncsIn("router") {
-		for _, in := range ir.Instrs(fn) {
-			var m ssa.Value
-			switch x := in.(type) {
-			case *ssa.MapUpdate:
-				m = x.Map
-			case *ssa.Call:
-				if b, ok := x.Call.Value.(*ssa.Builtin); ok && b.Name() == "delete" {
-					m = x.Call.Args[0]
-				}
-			}
-			if m == nil || !isMsgDict(m.Type()) {
-				continue
-			}
-			sites = append(sites, site{fn, in, m, ir.Desc(m)})
-		}
-	}
-	nWrites := 0
-	for _, s := range sites {
-		name := ir.ShortName(s.fn)
-		nWrites++
-		construct := "dict write to " + s.desc
-		if freshMap(s.m, 0) {
-			c.R.OK(r1, name, construct+" (fresh)", c.pos(s.in), "")
-			continue
-		}
-		if p, ok := s.m.(*ssa.Parameter); ok {
-			idx := -1
-			for i, q := range s.fn.Params {
-				if q == p {
-					idx = i
-				}
-			}
-			paramWriters[name] = idx
-			c.R.OK(r1, name, construct+" (parameter: obligation moves to the call sites)", c.pos(s.in), "")
-			continue
-		}
-		why := ""
-		for k, w := range exempt {
-			parts := strings.SplitN(k, "|", 2)
-			if parts[0] == name && strings.HasPrefix(s.desc, parts[1]) {
-				why = w
-			}
-		}
-		if why != "" {
-			c.R.OK(r1, name, construct+" (exempt: "+why+")", c.pos(s.in), "")
-			continue
-		}
-		c.R.Bad(r1, name, construct+" is fresh", c.pos(s.in),
-			"the dict written here was not created in this activation (it is "+s.desc+"): it may be shared with another recipient's message, with router state, or be written after delivery")
-	}
-	// call sites of parameter writers pass fresh dicts
-	for _, name := range sortedKeys(paramWriters) {
-		idx := paramWriters[name]
-		cs := c.CallSites("^" + q(name) + "$")
-		if len(cs) == 0 {
-			c.R.Unknown(r1, name, "call sites of dict-writing helper", "-", "no call sites found")
-		}
-		for i, s := range cs {
-			call := s.In.(ssa.CallInstruction).Common()
-			arg := call.Args[idx]
-			ok := freshMap(arg, 0)
-			if !ok {
-				// a parameter of the caller that is itself a registered writer chain
-				if p, isP := arg.(*ssa.Parameter); isP {
-					_ = p
-				}
-			}
-			c.R.Check(ok, r1, ir.ShortName(s.Caller), fmt.Sprintf("call #%d of %s passes a fresh dict (%s)", i, name, ir.Desc(arg)), c.pos(s.In),
-				name+" writes into its dict parameter, and this call passes "+ir.Desc(arg)+", which was not created in the calling activation")
-		}
-	}
-	c.R.Check(nWrites >= 25, r1, "router", "dict write sites enumerated", "-", fmt.Sprintf("only %d dict write sites found; 25 were confirmed by reading", nWrites))
+	ruleDictWrites(c, r1)
 	c.R.Floor(r1, 30)
 
 	// R2: cleanSessionDetails
@@ -346,4 +299,94 @@ func runC12(c *Ctx) {
 	}
 	c.R.Check(nUses >= 5, r5, "router", "whole-details uses enumerated", "-", fmt.Sprintf("found %d, confirmed 5 by reading", nUses))
 	c.R.Floor(r5, 6)
+}
+
+// ruleDictWrites: every dict written in the router is private to the writing activation.
+func ruleDictWrites(c *Ctx, r1 string) {
+	exempt := map[string]string{
+		"router.(*realm).modifySessionDetails|%sess.Details":  "the session's own details, written under the session lock by the modify_details meta procedure (by design)",
+		"router.(*router).AttachClient|call:wamp.RecvTimeout(%client, 5000000000)#0.(*wamp.Hello),ok#0.Details": "HELLO details of this handshake, replaced by a NormalizeDict copy before the write",
+		"router.(*realm).authClient|call:invoke:auth.Authenticator.Authenticate": "WELCOME details returned by the authenticator for this handshake only",
+	}
+	paramWriters := map[string]int{} // function -> parameter index whose dict it writes
+	type site struct {
+		fn   *ssa.Function
+		in   ssa.Instruction
+		m    ssa.Value
+		desc string
+	}
+	var sites []site
+	for _, fn := range c.P.FuncsIn("router") {
+		for _, in := range ir.Instrs(fn) {
+			var m ssa.Value
+			switch x := in.(type) {
+			case *ssa.MapUpdate:
+				m = x.Map
+			case *ssa.Call:
+				if b, ok := x.Call.Value.(*ssa.Builtin); ok && b.Name() == "delete" {
+					m = x.Call.Args[0]
+				}
+			}
+			if m == nil || !isMsgDict(m.Type()) {
+				continue
+			}
+			sites = append(sites, site{fn, in, m, ir.Desc(m)})
+		}
+	}
+	nWrites := 0
+	for _, s := range sites {
+		name := ir.ShortName(s.fn)
+		nWrites++
+		construct := "dict write to " + s.desc
+		if freshMap(s.m, 0) {
+			c.R.OK(r1, name, construct+" (fresh)", c.pos(s.in), "")
+			continue
+		}
+		if p, ok := s.m.(*ssa.Parameter); ok {
+			idx := -1
+			for i, q := range s.fn.Params {
+				if q == p {
+					idx = i
+				}
+			}
+			paramWriters[name] = idx
+			c.R.OK(r1, name, construct+" (parameter: obligation moves to the call sites)", c.pos(s.in), "")
+			continue
+		}
+		why := ""
+		for k, w := range exempt {
+			parts := strings.SplitN(k, "|", 2)
+			if parts[0] == name && strings.HasPrefix(s.desc, parts[1]) {
+				why = w
+			}
+		}
+		if why != "" {
+			c.R.OK(r1, name, construct+" (exempt: "+why+")", c.pos(s.in), "")
+			continue
+		}
+		c.R.Bad(r1, name, construct+" is fresh", c.pos(s.in),
+			"the dict written here was not created in this activation (it is "+s.desc+"): it may be shared with another recipient's message, with router state, or be written after delivery")
+	}
+	// call sites of parameter writers pass fresh dicts
+	for _, name := range sortedKeys(paramWriters) {
+		idx := paramWriters[name]
+		cs := c.CallSites("^" + q(name) + "$")
+		if len(cs) == 0 {
+			c.R.Unknown(r1, name, "call sites of dict-writing helper", "-", "no call sites found")
+		}
+		for i, s := range cs {
+			call := s.In.(ssa.CallInstruction).Common()
+			arg := call.Args[idx]
+			ok := freshMap(arg, 0)
+			if !ok {
+				// a parameter of the caller that is itself a registered writer chain
+				if p, isP := arg.(*ssa.Parameter); isP {
+					_ = p
+				}
+			}
+			c.R.Check(ok, r1, ir.ShortName(s.Caller), fmt.Sprintf("call #%d of %s passes a fresh dict (%s)", i, name, ir.Desc(arg)), c.pos(s.In),
+				name+" writes into its dict parameter, and this call passes "+ir.Desc(arg)+", which was not created in the calling activation")
+		}
+	}
+	c.R.Check(nWrites >= 25, r1, "router", "dict write sites enumerated", "-", fmt.Sprintf("only %d dict write sites found; 25 were confirmed by reading", nWrites))
 }
